@@ -44,6 +44,7 @@ partial def pVal (cs : List Char) : Option (Val × List Char) :=
   | 'E' :: '(' :: r => pWrap r Val.err
   | 'B' :: '(' :: r => pWrap r Val.boxed
   | '[' :: r => (pList r ']' []).map fun (vs, r') => (.seq vs, r')
+  | 'A' :: '[' :: r => (pList r ']' []).map fun (vs, r') => (.array vs, r')
   | 'T' :: '(' :: r => (pList r ')' []).map fun (vs, r') => (.tuple vs, r')
   | 'R' :: '{' :: r => (pList r '}' []).map fun (vs, r') => (.struct vs, r')
   | 'V' :: r =>
@@ -93,6 +94,7 @@ partial def showVal : Val → String
   | .err v => s!"E({showVal v})"
   | .boxed v => s!"B({showVal v})"
   | .seq vs => "[" ++ ",".intercalate (vs.map showVal) ++ "]"
+  | .array vs => "A[" ++ ",".intercalate (vs.map showVal) ++ "]"
   | .tuple vs => "T(" ++ ",".intercalate (vs.map showVal) ++ ")"
   | .struct vs => "R{" ++ ",".intercalate (vs.map showVal) ++ "}"
   | .enum k vs => s!"V{k}" ++ "{" ++ ",".intercalate (vs.map showVal) ++ "}"
